@@ -101,18 +101,25 @@ class PathExplorer:
         self.states = 0
         self.pruned = 0
 
-    def run(self, max_states=400000):
+    def run(self, max_states=400000, start=0, blocked=frozenset()):
+        """Explore from `start` (default: entry) with no initial facts; blocks in `blocked` are dead ends.
+        self.visited_bbs holds every block some abstract state reached."""
         body = self.body
-        init = (0, frozenset(), frozenset(), frozenset(), None)
+        init = (start, frozenset(), frozenset(), frozenset(), None)
         parent = {init: None}
         dq = deque([init])
         finals = []
+        self.visited_bbs = {start}
         while dq:
             node = dq.popleft()
             self.states += 1
             if self.states > max_states:
                 raise RuntimeError("state explosion")
             for nxt in self.step(node):
+                if nxt[0] is not None and nxt[0] in blocked:
+                    continue
+                if nxt[0] is not None:
+                    self.visited_bbs.add(nxt[0])
                 if nxt not in parent:
                     parent[nxt] = node
                     if nxt[0] is None:
@@ -154,6 +161,14 @@ class PathExplorer:
                 facts = frozenset(f for f in facts if not (
                     (f[1][0] == "local" and f[1][1] in dead) or
                     (f[1][0] in ("agg", "repeat") and f[1][1] in defbbs and any(body.defs(l) and body.defs(l)[0][0] == f[1][1] for l in dead))))
+        # a Result / Option / ControlFlow built here has a known variant (both under the aggregate's identity and under the
+        # local that holds it: a value assigned on several paths is identified by its local)
+        for st in body.stmts(bb):
+            if st["k"] == "assign" and not st["lhs"]["p"] and st["rv"]["r"] == "agg" and st["rv"].get("ak") == "adt" and \
+                    st["rv"].get("adt") in ("std::result::Result", "std::option::Option", "std::ops::ControlFlow"):
+                v = st["rv"]["vidx"]
+                facts = frozenset(f for f in facts if not (f[0] == "d" and f[1] in (("agg", bb, ()), ("local", st["lhs"]["l"], ())))) | \
+                    {("d", ("agg", bb, ()), v), ("d", ("local", st["lhs"]["l"], ()), v)}
         if bb in self.ok_blocks:
             ret = "ok"
         elif bb in self.err_blocks:
@@ -169,6 +184,14 @@ class PathExplorer:
             c = body.call_at(bb)
             # kill facts about this call's previous result (loops)
             facts = frozenset(f for f in facts if not (f[1][0] == "call" and f[1][1] == bb))
+            if c.dest is not None and not c.dest["p"]:
+                facts = frozenset(f for f in facts if not (f[1][0] == "local" and f[1][1] == c.dest["l"]))
+                if c.decl == "std::ops::FromResidual::from_residual":
+                    # `?` on the failure side: the value built from a residual is Err(..) / None
+                    ty0 = body.local_ty(c.dest["l"])
+                    v0 = 1 if ty0.startswith("std::result::Result<") else 0 if ty0.startswith("std::option::Option<") else None
+                    if v0 is not None:
+                        facts = facts | {("d", ("call", bb, ()), v0), ("d", ("local", c.dest["l"], ()), v0)}
             add = self.on_call(c, flags)
             if add:
                 flags = flags | frozenset(add)
